@@ -1093,36 +1093,50 @@ where
           _ => unreachable!(),
         };
 
-        match writer
-          .cc_upload
-          .try_send(WriterCommand::WaitForAcknowledgments {
-            all_acked: ack_wait_sender,
-          }) {
-          Ok(()) => {
-            *self = AsyncWaitForAcknowledgments::Waiting { ack_wait_receiver };
-            Poll::Pending
-          }
+        let mut command = WriterCommand::WaitForAcknowledgments {
+          all_acked: ack_wait_sender,
+        };
+        let mut waker_registered = false;
+        loop {
+          match writer.cc_upload.try_send(command) {
+            Ok(()) => {
+              *self = AsyncWaitForAcknowledgments::Waiting { ack_wait_receiver };
+              // The command is on its way. Poll the response channel right away,
+              // so that our waker gets registered there. Returning Pending without
+              // a registered waker would leave this future sleeping forever.
+              return self.poll(cx);
+            }
 
-          Err(TrySendError::Full(WriterCommand::WaitForAcknowledgments {
-            all_acked: ack_wait_sender,
-          })) => {
-            *self = AsyncWaitForAcknowledgments::WaitingSendCommand {
-              writer,
-              ack_wait_receiver,
-              ack_wait_sender,
-            };
-            Poll::Pending
+            Err(TrySendError::Full(WriterCommand::WaitForAcknowledgments { all_acked })) => {
+              if waker_registered {
+                // Still no room. The Writer will wake us when it has made some.
+                *self = AsyncWaitForAcknowledgments::WaitingSendCommand {
+                  writer,
+                  ack_wait_receiver,
+                  ack_wait_sender: all_acked,
+                };
+                return Poll::Pending;
+              }
+              // Command queue is full. Ask the Writer to wake us when it has made
+              // room (like AsyncWrite does), and then try once more, in case the
+              // room was made just before the waker was stored.
+              *writer.cc_upload_waker.lock().unwrap() = Some(cx.waker().clone());
+              waker_registered = true;
+              command = WriterCommand::WaitForAcknowledgments { all_acked };
+            }
+            Err(TrySendError::Full(_other_writer_command)) =>
+            // We are sending WaitForAcknowledgments, so the channel
+            // should return only that, if any.
+            {
+              unreachable!()
+            }
+            Err(e) => {
+              return Poll::Ready(Err(WriteError::Poisoned {
+                reason: format!("{e}"),
+                data: (),
+              }))
+            }
           }
-          Err(TrySendError::Full(_other_writer_command)) =>
-          // We are sending WaitForAcknowledgments, so the channel
-          // should return only that, if any.
-          {
-            unreachable!()
-          }
-          Err(e) => Poll::Ready(Err(WriteError::Poisoned {
-            reason: format!("{e}"),
-            data: (),
-          })),
         }
       }
     }
